@@ -200,6 +200,103 @@ def rewrite_continue(text, log):
         text = text[:m.start()] + blank + text[m.end():bc + 1] + ' else {' + text[bc + 1:lc] + '} ' + text[lc:]
 
 
+AUTO_UNCONTINUE = False
+
+
+def _stmt_header(msk, open_pos):
+    """text between the start of the statement piece that owns the block opened at `open_pos` and that brace"""
+    st = max(msk.rfind(';', 0, open_pos), msk.rfind('{', 0, open_pos), msk.rfind('}', 0, open_pos)) + 1
+    return st, msk[st:open_pos]
+
+
+def rewrite_continue_flag(text, log):
+    """D45 (Verus for-loops have no `continue`): in a `for` body, `continue;` becomes `_skipN = true;` and, at every enclosing
+    statement-block level up to the loop body, the statements that follow are wrapped in `if !_skipN { .. }`.  `_skipN` is declared
+    `false` at the top of the body.  Only statement positions are handled: a `continue` inside an initialiser / assignment / closure
+    aborts the extraction (UNDECIDED).  Applied only after Verus refused the unit for this very reason."""
+    n = 0
+    while True:
+        msk = lex.mask(text)
+        target = None
+        for m in re.finditer(r'\bcontinue\s*;', msk):
+            # nearest enclosing loop
+            o = _enclosing_open(msk, m.start())
+            kind = None
+            while o >= 0:
+                _, hdr = _stmt_header(msk, o)
+                hm = re.match(r"\s*(?:'\w+\s*:\s*)?(for|while|loop)\b", hdr)
+                if hm:
+                    kind = hm.group(1)
+                    break
+                o = _enclosing_open(msk, o - 1)
+            if kind == 'for':
+                target = (m, o)
+                break
+        if target is None:
+            return text
+        m, loop_open = target
+        n += 1
+        if n > 20:
+            raise ExtractError('D45: too many continue statements')
+        flag = '_skip%d' % n
+        edits = []   # (start, end, replacement) on the current text, non-overlapping
+        cur_open = _enclosing_open(msk, m.start())
+        cur_close = lex.match_bracket(msk, cur_open)
+        edits.append((m.start(), m.end(), flag + ' = true;'))
+        rest_from = m.end()
+        while True:
+            # wrap what follows inside the current statement block
+            if msk[rest_from:cur_close].strip():
+                edits.append((rest_from, rest_from, ' if !%s {' % flag))
+                edits.append((cur_close, cur_close, '} '))
+            if cur_open == loop_open:
+                break
+            # climb: the construct that owns cur block, inside its parent block (a match arm body climbs to the match statement)
+            while True:
+                parent_open = _enclosing_open(msk, cur_open - 1)
+                if parent_open < 0:
+                    raise ExtractError('D45: lost the loop body')
+                st, hdr = _stmt_header(msk, cur_open)
+                if re.search(r'\|[^|]*\|\s*(->[^{]*)?$', hdr) or re.search(r'\bmove\s*$', hdr):
+                    raise ExtractError('D45: continue inside a closure')
+                _, phdr = _stmt_header(msk, parent_open)
+                if re.search(r'\bmatch\b[^;{}]*$', phdr) and re.search(r'=>\s*$', hdr):
+                    if parent_open == loop_open:
+                        raise ExtractError('D45: lost the loop body')
+                    cur_open, cur_close = parent_open, lex.match_bracket(msk, parent_open)
+                    continue
+                break
+            # start of the whole statement (walk back over `if .. {} else if .. {} else` chains)
+            while re.match(r'\s*else\b', hdr):
+                prev_close = st - 1
+                if prev_close < 0 or msk[prev_close] != '}':
+                    raise ExtractError('D45: malformed else chain')
+                po = _enclosing_open(msk, prev_close - 1)
+                st, hdr = _stmt_header(msk, po)
+            if not re.match(r"\s*(?:'\w+\s*:\s*)?(if|match|for|while|loop|unsafe)\b|\s*$", hdr):
+                raise ExtractError('D45: continue in a value position (%s)' % hdr.strip()[:40])
+            # end of the whole statement (walk forward over else chains)
+            end = cur_close + 1
+            while True:
+                me = re.match(r'\s*else\b', msk[end:])
+                if not me:
+                    break
+                bo = lex.find_at_depth0(msk, end + me.end(), len(msk), '{')
+                if bo < 0:
+                    raise ExtractError('D45: malformed else chain')
+                end = lex.match_bracket(msk, bo) + 1
+            ms = re.match(r'\s*;', msk[end:])
+            if ms:
+                end += ms.end()
+            rest_from = end
+            cur_open, cur_close = parent_open, lex.match_bracket(msk, parent_open)
+        edits.append((loop_open + 1, loop_open + 1, ' let mut %s: bool = false;' % flag))
+        for a, b, rep in sorted(edits, key=lambda e: (-e[0], -e[1])):
+            text = text[:a] + rep + text[b:]
+        log.append(('D45', '`continue` in a for body replaced by flag %s guarding the rest of the iteration' % flag, text.count('\n', 0, m.start())))
+
+
+
 def rewrite_format(text, nth, log):
     """D10: the nth `format!(..)` (only `{}` / `{name}` placeholders, no format specs) becomes
     `{ let mut _f = String::new(); _f.push_str("lit"); _f.push_str(VDisp::vdisp(&(X)).as_str()); ..; _f }`.
@@ -377,6 +474,8 @@ def _apply_block(text, first_line, relpath, directives, tmpl_file, log, stub):
     # (the language definition of `for`, spelled out because Verus for-loops do not support `continue`); applied last-to-first
     for d in sorted([d for d in directives if d['kind'] == 'desugar_for'], key=lambda d: -d['k']):
         text = rewrite_desugar_for(text, d['k'], d['it'], d['call'], log)
+    if AUTO_UNCONTINUE and not stub:
+        text = rewrite_continue_flag(text, log)
     # D16 (general form): every `VAR[expr]` on the named map variables becomes std's definition of `Index`
     # for maps, `VAR.get(expr).expect("no entry found for key")` (a leading `&` is absorbed; a bare use is dereferenced)
     for d in directives:
@@ -594,7 +693,9 @@ def _apply_block(text, first_line, relpath, directives, tmpl_file, log, stub):
     return out
 
 
-def assemble(unit_name, repo=None, extra_takes=()):
+def assemble(unit_name, repo=None, extra_takes=(), auto_uncontinue=False):
+    global AUTO_UNCONTINUE
+    AUTO_UNCONTINUE = bool(auto_uncontinue)
     repo = repo or REPO
     tmpl_rel = 'units/%s.rs' % unit_name
     tmpl = os.path.join(VERIF, tmpl_rel)
